@@ -173,6 +173,11 @@ def old(x): return x
 def implies(a, b): return (not a) or b
 
 
+def check(e):
+    """proof step inside a hint: e becomes an obligation here and a fact afterwards"""
+    return e
+
+
 def case_split(x):
     """proof hint: split the current path on the value of the integer x over the autosplit range"""
     return x
